@@ -504,3 +504,75 @@ func ubjsonHighPrec(h *rt.H) {
 }
 
 func ENC_UBJSON_HighPrec(h *rt.H) { ubjsonHighPrec(h) }
+
+// jsonStringEnc (C01, C07): strings and keys of N fully symbolic bytes (every byte
+// value, invalid UTF-8 included) through the JSON encoder with HTML escaping on or
+// off, as a string value (OnString / OnStringRef) and as an object key (OnKey /
+// OnKeyRef): the output is valid UTF-8 without raw control characters (and without
+// raw < > & when HTML escaping is on), it is a valid document for the reference
+// decoder, and reads back as the input with invalid UTF-8 replaced by U+FFFD; the
+// library's own parser reads the same.
+func jsonStringEnc(h *rt.H) {
+	n := h.Choose("len", 0, h.Param("N", 2))
+	s := h.Bytes("s", n)
+	html := h.Choose("escapeHTML", 0, 1) == 1
+	how := h.Choose("how", 0, 3) // 0 OnString, 1 OnStringRef, 2 OnKey, 3 OnKeyRef
+	out := &sink{}
+	v := json.NewVisitor(out)
+	v.SetEscapeHTML(html)
+	var err error
+	switch how {
+	case 0:
+		err = v.OnString(string(s))
+	case 1:
+		err = v.OnStringRef(cloneBytes(s))
+	case 2, 3:
+		err = v.OnObjectStart(-1, structform.AnyType)
+		if err == nil {
+			if how == 2 {
+				err = v.OnKey(string(s))
+			} else {
+				err = v.OnKeyRef(cloneBytes(s))
+			}
+		}
+		if err == nil {
+			err = v.OnNil()
+		}
+		if err == nil {
+			err = v.OnObjectFinished()
+		}
+	}
+	h.Assert("encoded", err == nil)
+	h.Assert("output-valid-utf8", ref.ValidUTF8(out.B))
+	clean := true
+	for _, c := range out.B {
+		clean = rt.And(clean, c >= 0x20)
+		if html {
+			clean = rt.And(clean, c != '<' && c != '>' && c != '&')
+		}
+	}
+	h.Assert("no-raw-control-or-html", clean)
+	evs, class, items := ref.DecodeJSON(h, out.B)
+	h.Assert("valid-document", class == ref.OK && items == 1)
+	want := ref.Sanitise(s)
+	var got []byte
+	found := false
+	for _, e := range evs {
+		if (how < 2 && e.K == ev.String) || (how >= 2 && e.K == ev.Key) {
+			got, found = e.Str, true
+		}
+	}
+	h.Assert("reads-back", found && rt.BytesEq(got, want))
+	var rec ev.Recorder
+	h.Assert("accepted", json.Parse(cloneBytes(out.B), &rec) == nil)
+	found = false
+	for _, e := range rec.Events {
+		if (how < 2 && e.K == ev.String) || (how >= 2 && e.K == ev.Key) {
+			got, found = e.Str, true
+		}
+	}
+	h.Assert("roundtrip", found && rt.BytesEq(got, want))
+	h.ObserveBytes("bytes", out.B)
+}
+
+func ENC_JSONString(h *rt.H) { jsonStringEnc(h) }
